@@ -346,6 +346,29 @@ def place(rng, A, L, cis, vt, rt, X, T, focus_lin):
     return X, kinds
 
 
+def place_between_tolerances(A, L, cis, X, eff, own, focus_lin, frac):
+    """scale column 0 so that its most loaded constraint lies between limit+tol(eff) and limit+tol(own)"""
+    col = [[X[i][0]] for i in range(len(X))]
+    cur = currents_exact(A, cis, col, 1, focus_lin)
+    best = None
+    for j in range(len(A)):
+        r = float(rhs_exact(L[j], eff[0], eff[1]))
+        mag = math.sqrt(float(cur[j][0][0]) ** 2 + float(cur[j][0][1]) ** 2)
+        if r > 0 and mag > 1e-9 and (best is None or mag / r > best[0]):
+            best = (mag / r, j, mag)
+    if best is None:
+        return X, False
+    _, j, mag = best
+    r_eff = float(rhs_exact(L[j], eff[0], eff[1]))
+    r_own = float(rhs_exact(L[j], own[0], own[1]))
+    if r_eff == r_own:
+        return X, False
+    target = r_eff + frac * (r_own - r_eff)
+    for i in range(len(X)):
+        X[i][0] = X[i][0] * target / mag
+    return X, True
+
+
 def make_mapping(rng, X, T):
     """returns (mapping [(idx, rates)], kind).  Except for the ragged / empty kinds, dense(mapping) == X."""
     n = len(X)
@@ -571,12 +594,24 @@ def gen_block(rng):
             T = rng.choice([1, 1, 1, 2, 2, 3, 3, 4, 4, 5, 5, 6, 6, 0])
             X = rand_schedule(rng, len(ph), T)
             ovt = ort = None
-            if rng.random() < 0.2:
-                # explicit tolerance arguments to ChargingNetwork.is_feasible / Interface.is_feasible
-                ovt, ort = rng.choice([(1e-3, None), (None, 1e-4), (1e-9, 1e-12), (1e-5, 1e-7), (0.25, 0.0), (None, 1e-2)])
+            zero_tol = False
+            if rng.random() < 0.3:
+                # explicit tolerance arguments to ChargingNetwork.is_feasible / Interface.is_feasible,
+                # including an explicit 0 / 0.0 for each tolerance separately and together
+                ovt, ort = rng.choice([(1e-3, None), (None, 1e-4), (1e-9, 1e-12), (1e-5, 1e-7), (0.25, 0.0), (None, 1e-2),
+                                       (0.0, None), (None, 0.0), (0.0, 0.0), (0, 0), (0, None), (None, 0),
+                                       (0.0, 1e-7), (1e-5, 0.0), (0.0, None), (None, 0.0), (0.0, 0.0), (0, 0)])
+                zero_tol = ovt == 0 or ort == 0
             evt = spec["vt"] if ovt is None else ovt
             ert = spec["rt"] if ort is None else ort
-            X, colkinds = place(rng, A or [], L, cis, evt, ert, X, T, rng.random() < 0.35)
+            focus_lin = rng.random() < 0.35
+            X, colkinds = place(rng, A or [], L, cis, evt, ert, X, T, focus_lin)
+            if zero_tol and A and T > 0 and rng.random() < 0.9:
+                # between limit + explicit (zero) tolerance and limit + the network's own tolerance
+                X, ok = place_between_tolerances(A, L, cis, X, (evt, ert), (spec["vt"], spec["rt"]), focus_lin,
+                                                 rng.uniform(0.2, 0.8))
+                if ok:
+                    colkinds = colkinds + ["between-explicit-zero-and-network-tolerance"]
             mapping, mkind = make_mapping(rng, X, T)
             impl = run_impl(net, itf, X, T, mapping, ovt, ort)
             cases.extend(finish_cases(spec, A, L, ph, cis, X, T, mapping, mkind, colkinds, impl, ovt=ovt, ort=ort))
